@@ -2161,12 +2161,19 @@ class Engine:
         elif f[0] == "ext":
             e.ext = f[1]
         self._classify_sched(e, s)
-        # tracked local list mutation:  x = []; x.append(y)
+        # tracked local list mutation:  x = []; x.append(y)   (also  (a if flag else b).append(y)  with a plain name as flag)
         if f[0] == "attr" and f[2] == "append" and f[1][0] == "list" and len(args) == 1 and isinstance(node, ast.Call) \
-                and isinstance(node.func, ast.Attribute) and isinstance(node.func.value, ast.Name):
-            nm = node.func.value.id
-            if s.env.get(nm) == f[1]:
-                s.env[nm] = ("list", f[1][1] + (args[0],))
+                and isinstance(node.func, ast.Attribute):
+            rn = node.func.value
+            while isinstance(rn, ast.IfExp) and isinstance(rn.test, ast.Name):
+                tv = self._decide(s.env.get(rn.test.id, ("var", rn.test.id)), s)
+                if tv is None:
+                    break
+                rn = rn.body if tv else rn.orelse
+            if isinstance(rn, ast.Name):
+                nm = rn.id
+                if s.env.get(nm) == f[1]:
+                    s.env[nm] = ("list", f[1][1] + (args[0],))
         # tracked local byte buffer:  buf = bytearray(..); buf.append(x) / buf.extend(y)
         if f[0] == "attr" and f[2] in ("append", "extend") and len(args) == 1 and isinstance(node, ast.Call) \
                 and isinstance(node.func, ast.Attribute) and isinstance(node.func.value, ast.Name) and _is_bytebuf(f[1]):
